@@ -940,15 +940,18 @@ func c14BusySource(run *evid.Run, i int, j *Journal) {
 	wit := func() map[string]any {
 		return map[string]any{"scenario": label, "seed": run.Seed, "reads_of_the_source_by_one_merge": atomic.LoadInt64(&bs.reads), "appends_to_the_source_meanwhile": atomic.LoadInt64(&bs.appends)}
 	}
-	done := make(chan error, 1)
-	go func() { _, err := dst.Join(bs, -1); done <- err }()
+	var err error
 	run.Eval(1)
 	run.Count("scenarios_busy-source", 1)
-	var err error
-	select {
-	case err = <-done:
-	case <-time.After(5 * time.Minute):
-		run.Inconclusive("busy-source merge did not return: " + label)
+	okj, deadj, dumpj := guardCall(func() { _, err = dst.Join(bs, -1) }, 120*time.Second)
+	if !okj {
+		if deadj {
+			wt := wit()
+			wt["blocked_goroutines"] = dumpj
+			run.Violate("C14/deadlock", det("kind", "busy-source"), wt, "the merge never returned: every goroutine inside the library is waiting (%s)", label)
+		} else {
+			run.Inconclusive("busy-source merge did not return: " + label)
+		}
 		return
 	}
 	reads := atomic.LoadInt64(&bs.reads)
